@@ -722,8 +722,10 @@ def abort_case(part, pi, op, warm, k, total_only=False):
     lib = _lib()
     root = os.path.join(os.path.abspath(REPO), "permuta") + os.sep
     qspec, pspec = ABORT_PAIRS[pi]
-    if not warm:
-        lib.Perm._to_standard.cache_clear() if hasattr(lib.Perm, "_to_standard") else None
+    # process-wide table: always start from the same (empty) state so that the number of
+    # injection points does not depend on what this worker ran before; `warm` refills it
+    if hasattr(lib.Perm, "_to_standard"):
+        lib.Perm._to_standard.cache_clear()
     q, p = make(qspec), make(pspec)
     if warm:
         list(q.occurrences_in(p))
